@@ -339,3 +339,30 @@ theorem X_select_model_perm (s : Sel K) (nd : Nat) (x x' : FitRows K) (h : x.chi
   rw [heq]
 
 end SF
+
+/-! ## non-vacuity of the selection compositions: the hypotheses hold for a concrete unsorted package, and the
+    conclusion separates a passing model from a failing one -/
+namespace SF
+theorem exPkgX_sorted : (sortRows exPkgX).chi2 = [EF.fin 1, EF.fin 5, EF.pinf] := by
+  simp [sortRows, exPkgX, argsortEF, fancyIndex, List.mergeSort, List.range, List.range.loop, EF.leSort, List.MergeSort.Internal.splitInTwo]
+theorem exPkgX_nonAttained : NonAttained (Sel.C (EF.fin 3) : Sel Rat) 2 (sortRows exPkgX).chi2 := by
+  rw [exPkgX_sorted]
+  intro v hv c0 hc0 c hc
+  simp [Sel.thr] at hv
+  subst hv
+  simp at hc
+  rcases hc with rfl | rfl | rfl <;> simp [crit, EF.eq]
+example : 1 ∈ (keep (Sel.C (EF.fin 3) : Sel Rat) 2 (sortRows exPkgX)).modelId ∧
+    0 ∉ (keep (Sel.C (EF.fin 3) : Sel Rat) 2 (sortRows exPkgX)).modelId := by
+  have hwf : WFRows exPkgX := by
+    refine ⟨rfl, rfl, rfl, ?_⟩
+    intro fl h; simp [exPkgX] at h; subst h; rfl
+  have h := fun m hm => X_fit_select_models (Sel.C (EF.fin 3) : Sel Rat) (EF.fin 3) rfl 2 exPkgX hwf exPkgX_nonAttained
+    (EF.fin 1) (by rw [exPkgX_sorted]; rfl) m hm
+  constructor
+  · exact (h 1 (by simp [exPkgX])).mpr (by simp [crit, exPkgX, EF.lt])
+  · intro h0
+    have := (h 0 (by simp [exPkgX])).mp h0
+    simp [crit, exPkgX, EF.lt] at this
+    exact absurd this (by decide)
+end SF
